@@ -7,7 +7,7 @@
 (* Work.tla's scanner guarantees: invariant LookBound there, Look =        *)
 (* MaxRun + 2).  Under that assumption, for EVERY call sequence of every   *)
 (* length (the configuration space is finite):                             *)
-(*   BufferBound : len(buffer) <= Block + Look + 1                         *)
+(*   BufferBound : len(buffer) <= 2 * Block + Look + 1                     *)
 (*   CallCost    : one call copies at most 2 * (Block + Look) + ... chars  *)
 (*   Amortised   : character copies <= Dep per forwarded character         *)
 (*                 + (Look + 1) per call + Cap  (credit account; the       *)
@@ -20,16 +20,16 @@
 (***************************************************************************)
 EXTENDS Integers, TLC
 CONSTANTS Block, Look, Variant, MaxBuf      \* MaxBuf: state constraint for the negative control only
-VARIABLES blen, ptr, seen, eof, credit, last
-vars == <<blen, ptr, seen, eof, credit, last>>
+VARIABLES blen, ptr, seen, eof, credit, last, pre     \* pre: determine_encoding has read one block into raw_buffer
+vars == <<blen, ptr, seen, eof, credit, last, pre>>
 
 Min2(a, b) == IF a < b THEN a ELSE b
 Max2(a, b) == IF a < b THEN b ELSE a
-BufMax == Block + Look + 1
+BufMax == 2 * Block + Look + 1
 Dep    == 3 + (2 * (Look + 1)) \div Block + 1  \* per character: forward loop 1, decode+check 1, `+=` 1, re-copied remainder
-Cap    == 3 * (Block + Look + 2)
+Cap    == 4 * (Block + Look + 2)
 PerCall == Look + 1                         \* a call that trims without refilling re-copies at most Look characters
-CMax   == 3 * (Block + Look + 2) + Look
+CMax   == 4 * (Block + Look + 2) + Look
 
 Blocks(avail, length) == IF avail >= length THEN 0 ELSE ((length - avail) + Block - 1) \div Block
 
@@ -39,9 +39,11 @@ Update(length) ==
   ELSE LET trim == Variant # "nobuftrim"
            keep == IF trim THEN blen - ptr ELSE blen
            p2   == IF trim THEN 0 ELSE ptr
-           k    == Blocks(keep - p2, length)
-       IN  <<keep + k * Block, p2,
-             (IF trim THEN keep ELSE 0) + k * keep + Block * ((k * (k + 1)) \div 2) + k * Block>>
+           pb   == IF pre THEN Block ELSE 0
+           k0   == Blocks(keep - p2 + pb, length)
+           k    == IF pre /\ k0 = 0 THEN 1 ELSE k0
+       IN  <<keep + pb + k * Block, p2,
+             (IF trim THEN keep ELSE 0) + k * (keep + pb) + Block * ((k * (k + 1)) \div 2) + k * Block + pb>>
 
 \* cost = characters touched by the call itself (prefix slice, forward loop); a prefix slice is bounded per call
 \* (CallCost) and is not something consumption can pay for: a client may take the same prefix again and again
@@ -50,6 +52,7 @@ Do(u, cost, fw, sn) ==
   /\ seen' = sn
   /\ last' = u[3] + cost
   /\ credit' = Min2(Cap, credit + Dep * fw + PerCall) - (u[3] + fw)
+  /\ pre' = (pre /\ u[3] = 0 /\ u[1] = blen)
   /\ UNCHANGED eof
 
 NoUp == <<blen, ptr, 0>>
@@ -57,9 +60,9 @@ NoUp == <<blen, ptr, 0>>
 Peek    == \E i \in 0 .. Look - 1 : (eof => ptr + i < blen) /\ Do(IF ptr + i >= blen THEN Update(i + 1) ELSE NoUp, 0, 0, Max2(seen, i + 1))
 Prefix  == \E l \in 0 .. Look : (eof => ptr + l <= blen) /\ Do(IF ptr + l >= blen THEN Update(l) ELSE NoUp, l, 0, Max2(seen, l))
 Forward == \E l \in 0 .. seen : (eof => ptr + l < blen) /\ Do(IF ptr + l + 1 >= blen THEN Update(l + 1) ELSE NoUp, l, l, seen - l)
-EndOfStream == ~eof /\ eof' = TRUE /\ UNCHANGED <<blen, ptr, seen, credit, last>>   \* a read returned nothing
+EndOfStream == ~eof /\ eof' = TRUE /\ UNCHANGED <<blen, ptr, seen, credit, last, pre>>   \* a read returned nothing
 
-Init == blen = 0 /\ ptr = 0 /\ seen = 0 /\ eof = FALSE /\ credit = Cap /\ last = 0
+Init == blen = 0 /\ ptr = 0 /\ seen = 0 /\ eof = FALSE /\ credit = Cap /\ last = 0 /\ pre = TRUE
 Next == Peek \/ Prefix \/ Forward \/ EndOfStream
 Spec == Init /\ [][Next]_vars
 
